@@ -321,6 +321,61 @@ Proof.
   split; [exact (c16_node_diff_length d en)|exact (c16_gradient_length d ef dist H)].
 Qed.
 
+
+(* a source may list the two faces of an interior edge in either order (incl. face 0 second) and
+   the two nodes of an edge in either orientation: difference, gradient and both distance tables
+   are the same for the row (a, b) and the row (b, a) *)
+Lemma c16_face_order_free d dist co ef ef' e a b D :
+  nth_error ef e = Some (a, b) -> nth_error ef' e = Some (b, a) ->
+  is_fill a = false -> is_fill b = false -> nth_error dist e = Some D ->
+  (exists v v', nth_error (c16_edge_face_diff d ef) e = Some v /\
+                nth_error (c16_edge_face_diff d ef') e = Some v' /\ (v == v')%Q) /\
+  (exists g g', nth_error (c16_gradient d ef dist) e = Some g /\
+                nth_error (c16_gradient d ef' dist) e = Some g' /\ (g == g')%Q) /\
+  (exists x x', nth_error (c16_grid_efd false ef) e = Some x /\
+                nth_error (c16_grid_efd false ef') e = Some x' /\
+                c16_entry_value co x = c16_entry_value co x').
+Proof.
+  intros H H' Fa Fb HD. split; [|split].
+  - exists (Qabs (c16_at d a - c16_at d b))%Q, (Qabs (c16_at d b - c16_at d a))%Q.
+    split; [apply (c16_diff d ef e a b H Fb)|]. split; [apply (c16_diff d ef' e b a H' Fa)|].
+    apply c16_diff_sym.
+  - exists (Qabs (c16_at d a - c16_at d b) / D)%Q, (Qabs (c16_at d b - c16_at d a) / D)%Q.
+    split; [apply (c16_gradient_interior d ef dist e a b D H Fb HD)|].
+    split; [apply (c16_gradient_interior d ef' dist e b a D H' Fa HD)|].
+    rewrite (c16_diff_sym (c16_at d a) (c16_at d b)). reflexivity.
+  - exists (EGeo SFace a b), (EGeo SFace b a).
+    split; [rewrite (c16_efd_grid ef e a b false H), Fb; reflexivity|].
+    split; [rewrite (c16_efd_grid ef' e b a false H'), Fa; reflexivity|].
+    simpl. apply c16_dist_sym.
+Qed.
+
+Lemma c16_node_order_free d co en en' e a b :
+  nth_error en e = Some (a, b) -> nth_error en' e = Some (b, a) ->
+  (exists v v', nth_error (c16_edge_node_diff d en) e = Some v /\
+                nth_error (c16_edge_node_diff d en') e = Some v' /\ (v == v')%Q) /\
+  (exists x x', nth_error (c16_grid_end false en) e = Some x /\
+                nth_error (c16_grid_end false en') e = Some x' /\
+                c16_entry_value co x = c16_entry_value co x').
+Proof.
+  intros H H'. split.
+  - exists (Qabs (c16_at d a - c16_at d b))%Q, (Qabs (c16_at d b - c16_at d a))%Q.
+    split; [apply (c16_node_diff d en e a b H)|]. split; [apply (c16_node_diff d en' e b a H')|].
+    apply c16_diff_sym.
+  - exists (EGeo SNode a b), (EGeo SNode b a).
+    split; [apply (c16_end_grid en e a b false H)|]. split; [apply (c16_end_grid en' e b a false H')|].
+    simpl. apply c16_dist_sym.
+Qed.
+
+(* non-vacuity: an interior row listing face 0 second *)
+Example c16_face_order_free_nonvacuous :
+  nth_error [(0%Z, 3%Z)] 0 = Some (0%Z, 3%Z) /\ nth_error [(3%Z, 0%Z)] 0 = Some (3%Z, 0%Z) /\
+  is_fill 0 = false /\ is_fill 3 = false /\ nth_error [1 # 2]%Q 0 = Some (1 # 2)%Q.
+Proof. repeat split. Qed.
+Example c16_node_order_free_nonvacuous :
+  nth_error [(2%Z, 5%Z)] 0 = Some (2%Z, 5%Z) /\ nth_error [(5%Z, 2%Z)] 0 = Some (5%Z, 2%Z).
+Proof. split; reflexivity. Qed.
+
 (* l2 normalisation: unit Euclidean norm unless the array is identically zero *)
 Lemma c16_sumsq_scale k g : c16_sumsq (map (fun x => x / k) g) = c16_sumsq g / (k * k).
 Proof.
